@@ -1,0 +1,40 @@
+//go:build verif
+// +build verif
+
+package capnp
+
+// Read-only views and re-exports used by the verification harness in /verif.
+// This file is compiled only with the build tag "verif"; it adds no behaviour
+// to the normal build.
+
+import (
+	"bufio"
+	"io"
+	"sync/atomic"
+
+	"capnproto.org/go/capnp/v3/internal/packed"
+	"capnproto.org/go/capnp/v3/internal/strquote"
+)
+
+// VerifPack re-exports internal/packed.Pack.
+func VerifPack(dst, src []byte) []byte { return packed.Pack(dst, src) }
+
+// VerifUnpack re-exports internal/packed.Unpack.
+func VerifUnpack(dst, src []byte) ([]byte, error) { return packed.Unpack(dst, src) }
+
+// VerifPackedReader is internal/packed.Reader.
+type VerifPackedReader = packed.Reader
+
+// VerifNewPackedReader re-exports internal/packed.NewReader.
+func VerifNewPackedReader(r io.Reader, bufSize int) *packed.Reader {
+	return packed.NewReader(bufio.NewReaderSize(r, bufSize))
+}
+
+// VerifStrquoteAppend re-exports internal/strquote.Append.
+func VerifStrquoteAppend(buf, s []byte) []byte { return strquote.Append(buf, s) }
+
+// VerifReadLimit returns the remaining traversal budget of m, in bytes.
+func (m *Message) VerifReadLimit() uint64 {
+	m.rlimitInit.Do(m.initReadLimit)
+	return atomic.LoadUint64(&m.rlimit)
+}
